@@ -1,4 +1,34 @@
-import YV.Spec.XCompile
+/-
+  C05 — XPath compilation and execution are total and report failures faithfully.  Headline theorems.
+-/
+import YV.Proofs.XRun
 namespace YV.C05
-theorem placeholder : True := trivial
+open YV YV.X YV.XP YV.XM
+
+/-- Running any compiled machine (every program the builders emit ends with `store`) on any tree with any
+    injected fault yields a value or an error, never both and never neither. -/
+theorem C05_run_value_xor_error (fx : Bool) (t : Tree) (p : List PI) :
+    let o := run fx t (p ++ [.store])
+    (o.value.isSome = true ∧ o.err.isNone = true) ∨ (o.value.isNone = true ∧ o.err.isSome = true) :=
+  run_value_xor_error fx t p
+
+/-- The error of the first failing instruction is the error of the run: once the data tree has reported
+    an error no later instruction replaces it with an unrelated internal one. -/
+theorem C05_first_error_wins (fx : Bool) (t : Tree) (p q : List PI) (i : PI) (s : MSt) (f : Fail)
+    (hp : execTrace fx t p {} = (s, none)) (hi : step fx t i s = .error f) :
+    (run fx t (p ++ i :: q)).err = some f.err ∧ (run fx t (p ++ i :: q)).value = none :=
+  run_first_error fx t p q i s f hp hi
+
+/-- A failing data-tree callback is reported as the tree's error. -/
+theorem C05_callback_error (t : Tree) (what : String) (s : MSt) (f : Fail)
+    (h : callback t what s = .error f) : f.err = .tree s!"injected-fault-{t.failAt}" := by
+  simp only [callback] at h
+  split at h
+  · injection h with h; simp [← h]
+  · simp [pure, Except.pure] at h
+
+/-- non-vacuity: a tree whose first callback fails makes `evalLocPath` fail with the tree's error -/
+example : (run true { value := fun _ => .emptyNodeset, failAt := 1, derefTarget := id }
+            [.namePush [] [97], .evalLocPath, .store]).err = some (.tree "injected-fault-1") := by decide
+
 end YV.C05
